@@ -29,7 +29,22 @@ def effect_calls(w_abs):
             (f"fs::list_directory:{a}", "fs", f"fs::list_directory({P('sub', absolute)})", "read"),
             (f"fs::create_dir:{a}", "fs", f"fs::create_dir({P('made_dir', absolute)})", "create"),
             (f"fs::remove_dir:{a}", "fs", f"fs::remove_dir({P('emptydir', absolute)})", "delete"),
+            (f"fs::write_bytes:new-empty:{a}", "fs", f"fs::write_bytes([], {P('new_empty.bin', absolute)})", "create"),
+            (f"fs::write_bytes:sentinel-empty:{a}", "fs", f"fs::write_bytes([], {P('sentinel.txt', absolute)})", "modify"),
+            (f"fs::write_file:sentinel-empty:{a}", "fs", f"fs::write_file(\"\", {P('sentinel.txt', absolute)})", "modify"),
+            (f"fs::read_file:absent:{a}", "fs", f"fs::read_file({P('no_such_file.txt', absolute)})", "read"),
+            (f"fs::remove_file:absent:{a}", "fs", f"fs::remove_file({P('no_such_file.txt', absolute)})", "delete"),
+            (f"fs::list_directory:absent:{a}", "fs", f"fs::list_directory({P('no_such_dir', absolute)})", "read"),
+            (f"fs::create_dir:existing:{a}", "fs", f"fs::create_dir({P('sub', absolute)})", "create"),
+            (f"fs::copy_file:onto-sentinel:{a}", "fs", f"fs::copy_file({P('secret.txt', absolute)}, {P('sentinel.txt', absolute)})", "modify"),
+            (f"fs::read_file:via-symlink:{a}", "fs", f"fs::read_file({P('link_to_secret', absolute)})", "read"),
+            # built-ins the sandbox allows because they are pure: they must stay pure (no syscall may
+            # touch the world, whatever the argument names)
+            (f"fs::set_working_directory:dir:{a}", "fs", f"fs::set_working_directory({P('sub', absolute)})", "pure"),
+            (f"fs::set_working_directory:absent:{a}", "fs", f"fs::set_working_directory({P('no_such_dir', absolute)})", "pure"),
+            (f"fs::set_working_directory:symlink:{a}", "fs", f"fs::set_working_directory({P('link_to_sub', absolute)})", "pure"),
             (f"Path.exists:{a}", "", f"{P('secret.txt', absolute)}.exists()", "read"),
+            (f"Path.exists:absent:{a}", "", f"{P('no_such_file.txt', absolute)}.exists()", "read"),
             (f"Path.info:{a}", "", f"{P('secret.txt', absolute)}.info()", "read"),
         ]
     out += [
@@ -37,6 +52,8 @@ def effect_calls(w_abs):
         ("shell::run:canary-abs", "shell", f"shell::run(\"{os.path.join(w_abs, 'bin', 'canary')}\", [])", "process"),
         ("shell::run:sh", "shell", "shell::run(\"sh\", [\"-c\", \"echo hi > created_by_sh.txt\"])", "process"),
         ("read_line", "", "read_line()", "stdin"),
+        ("fs::working_directory", "fs", "fs::working_directory()", "pure"),
+        ("shell_arguments", "", "shell_arguments()", "pure"),
     ]
     return out
 
@@ -93,7 +110,7 @@ class C24:
             "the token printed just before it)")
     expected_probes = ["mode:playground-run", "mode:sandboxed-test", "stdin:loaded", "stdin:stalled", "stdin:closed",
                        "interrupt_injected", "strace_observed", "kind:read", "kind:create", "kind:modify", "kind:delete",
-                       "kind:process", "kind:stdin"]
+                       "kind:process", "kind:stdin", "kind:pure"]
     real_components = ["the real garden binary (playground-run / sandboxed-test), unmodified code paths; hook H2 only "
                        "counts steps and, when VERIF_FAULTS asks, sets the Ctrl-C flag at step k"]
     stub_components = ["the world: scratch directory tree, PATH with a canary executable, stdin pipe (loaded / stalled / "
@@ -123,7 +140,7 @@ class C24:
         if rng.chance(0.2):
             fault = rng.randint(1, 40)
         return {"key": key, "imp": imp, "call": call, "kind": kind, "position": position, "mode": mode,
-                "stdin": stdin_mode, "fault": fault, "strace": rng.chance(0.5 if tier == "quick" else 0.3),
+                "stdin": stdin_mode, "fault": fault, "strace": rng.chance(0.5 if tier == "quick" else 0.3) or kind == "pure",
                 "token": f"{rng.u64():016x}", "aux": rng.u64()}
 
     def build_program(self, case, w_abs):
@@ -213,6 +230,8 @@ class C24:
             interrupted = final is not None and final.get("error") == "Interrupted"
             if case["fault"] and (interrupted or not reached):
                 pass  # the Ctrl-C won the race; only the absence of effects is required
+            elif case["kind"] == "pure":
+                pass  # allowed in the sandbox; only the absence of effects is required
             elif not res["killed"]:
                 if final is None or final.get("error") != SANDBOX_MSG:
                     if case["position"] == "test":
@@ -237,7 +256,7 @@ class C24:
             else:
                 t = d.get("tests", {}).get("effect_test")
                 reached = t is not None
-                if t is not None and not (case["fault"] and t.get("description") == "interrupted"):
+                if t is not None and not (case["fault"] and t.get("description") == "interrupted") and case["kind"] != "pure":
                     if t.get("description") != "sandboxed":
                         v.append(("not-refused", f"test verdict {t} instead of `sandboxed`"))
         return reached, v
